@@ -14,6 +14,20 @@ const fnStreamerGo = "(*actions.MessageStreamer).Go"
 func cellOf(v ssa.Value, owner *ssa.Function, name string) bool {
 	for i := 0; i < 10; i++ {
 		switch x := v.(type) {
+		case *ssa.FieldAddr:
+			// the same state kept in a field of a private carrier struct of the package (shared through a pointer)
+			if fieldName(x.X.Type(), x.Field) != name {
+				return false
+			}
+			n := namedOf(x.X.Type())
+			return n != nil && !n.Obj().Exported() && n.Obj().Pkg() != nil && owner.Pkg != nil && n.Obj().Pkg() == owner.Pkg.Pkg
+		case *ssa.Parameter:
+			// handed to a private method / helper of the streamer by its only caller (as &cell)
+			if a := uniqueCallerArg(x); a != nil {
+				v = a
+				continue
+			}
+			return false
 		case *ssa.Alloc:
 			return x.Parent() == owner && x.Comment == name
 		case *ssa.FreeVar:
@@ -31,8 +45,33 @@ func cellOf(v ssa.Value, owner *ssa.Function, name string) bool {
 
 // loadedFromCell: v is a load of the cell.
 func loadedFromCell(v ssa.Value, owner *ssa.Function, name string) bool {
-	u, ok := strip(v).(*ssa.UnOp)
+	v = strip(v)
+	for i := 0; i < 4; i++ {
+		p, isP := v.(*ssa.Parameter)
+		if !isP {
+			break
+		}
+		a := uniqueCallerArg(p)
+		if a == nil {
+			return false
+		}
+		v = strip(a)
+	}
+	u, ok := v.(*ssa.UnOp)
 	return ok && u.Op == token.MUL && cellOf(u.X, owner, name)
+}
+
+// streamMuHeld: the streamer's mutex — the local `mu` of Go, or the `mu` field of its private state struct.
+func streamMuHeld(held map[string]bool) bool {
+	if held["l:Go.mu"] {
+		return true
+	}
+	for k := range held {
+		if strings.HasPrefix(k, "f:") && strings.HasSuffix(k, ".mu") {
+			return true
+		}
+	}
+	return false
 }
 
 // ---------------------------------------------------------------------------
@@ -52,12 +91,21 @@ func ruleC11_1(c *Ctx, r *Rep) {
 				acc := cellAccesses(f, g, cell)
 				// operations on the map value loaded from the cell
 				if cell == "pending" {
+					// reading the VARIABLE (the map header, assigned once before the goroutines start) is not an access of
+					// the shared map; what is done with the loaded map is (next line)
+					var kept []access
+					for _, a := range acc {
+						if a.write || !strings.HasPrefix(a.what, "load pending") {
+							kept = append(kept, a)
+						}
+					}
+					acc = kept
 					acc = append(acc, mapAccesses(f, func(v ssa.Value) bool { return loadedFromCell(v, g, "pending") })...)
 				}
 				for i, a := range acc {
 					n++
 					held := li.heldAt(a.instr)
-					ok := held["l:Go.mu"]
+					ok := streamMuHeld(held)
 					r.Check("C11.1", fmt.Sprintf("C11.1:%s:%s#%d@%s", cell, strings.Fields(a.what)[0], i+1, c.Key(f)), a.instr.Pos(), ok, "under mu",
 						"the stream's "+cell+" is accessed ("+a.what+") in "+c.Key(f)+" without holding mu: the flow-control accounting races (miscount or concurrent map access crash)")
 				}
@@ -68,7 +116,11 @@ func ruleC11_1(c *Ctx, r *Rep) {
 		}
 	}
 	walk(g)
-	r.Floor("C11.1", n, 12)
+	// private methods / helpers the goroutines hand their work to
+	for _, h := range c.opFuncs(g)[1:] {
+		walk(h)
+	}
+	r.Floor("C11.1", n, 8)
 }
 
 // streamer goroutines by role
@@ -261,6 +313,10 @@ func isTryWake(g *ssa.Function, in ssa.Instruction) bool {
 		// tryWake is a closure value held in a local: a dynamic call of a loaded func value
 		if ok && call.Call.StaticCallee() != nil && call.Call.StaticCallee().Parent() == g {
 			// direct call of the closure
+			return closureSends(call.Call.StaticCallee())
+		}
+		// a method of the private state struct that does the non-blocking send
+		if ok && call.Call.StaticCallee() != nil && call.Call.StaticCallee().Pkg == g.Pkg && call.Call.StaticCallee().Object() != nil && !call.Call.StaticCallee().Object().Exported() && call.Call.StaticCallee().Signature.Recv() != nil {
 			return closureSends(call.Call.StaticCallee())
 		}
 		return false
